@@ -17,11 +17,13 @@ def st_history_case(draw,
                     payload=True,
                     multi=True,
                     busy=False,
-                    min_ops=1):
+                    min_ops=1,
+                    var_attr=False):
     desc = draw(
         history.st_desc(tfrec_weight=tfrec_weight,
                         hashes=hashes,
-                        payload=payload))
+                        payload=payload,
+                        var_attr=var_attr))
     if max_ops is None:
         max_ops = 5 if tier == "quick" else 7
     if desc["fmt"] == "tfrec":
